@@ -113,10 +113,13 @@ func vF2SameRefs(a, b []NodeRef) bool {
 //	      \- P2@1 -- P5@3 (inserted after P4: gap nodes (P2,2),(P2,3))
 //
 // two votes, then one successful, pruning UpdateJustified to finalized (P1,1) / (P3,1) / (P2,1) (first Choose) with
-// justified = finalized or = (child block, 1) (P3 / P4 / P5; the justified node exists only for P3); P4 carries
-// epochs (1,1) or (0,0) (not viable afterwards; its sibling empty-slot node (P3,3) is then inserted first with (1,1),
-// param stale_best=1: not, so that P3@2 is a viable node whose children are all non-viable). Choose order (shards): finalized 3, P4 epochs 2, vote of validator 0
-// 4, query part 2 (param split=1: Search / everything else on separate paths), [justified: param j_child=1 adds the child variant; vote of validator 1: param votes1 candidates, default 1].
+// justified = finalized (param j_child=1 adds justified = (child block, 1): P3 / P4 / P5; that justified node exists
+// only for P3). P4 carries epochs (1,1) or (0,0) (second Choose; (0,0) is not viable afterwards; its sibling
+// empty-slot node (P3,3) is then inserted first with (1,1) - param stale_best=1: not, so that P3@2 becomes a viable
+// node whose children are all non-viable).
+// Choose order (shards): finalized 3, P4 epochs 2, vote of validator 0: 4 candidates, query part 3 (param split=1:
+// everything but Search / Search from the even anchors / Search from the odd anchors run on separate paths),
+// [justified 2 with j_child=1], [vote of validator 1: param votes1 candidates, default 1].
 // Then every graph query, for every root of the pool (7 inserted, pruned or retained) plus a never-inserted one and
 // every slot 0..maxSlot+1, through the ProtoForkChoice wrapper and on the bare ProtoArray, is compared with a direct
 // walk over the list of inserted nodes restricted to the retained ones. "Retained" is what the prefix pruning keeps:
@@ -130,18 +133,23 @@ func vF2SameRefs(a, b []NodeRef) bool {
 // withBlock and errors for !withBlock; an empty-slot node (the finalized gap-slot node after pruning) answers
 // !withBlock and is nil for withBlock.
 //
+// Search is asked with no filter, each parent root, each slot 1..maxSlot+1, and the (parent root, slot) pairs of the
+// inserted blocks, from every retained node, two pruned nodes and an unknown one (bare ProtoArray: when at most one
+// filter is given).
+//
 // Params: late (1), bal_bound (16), canon (1), canon_anchor (1: CanonAtSlot at the first known slot of the anchor is
-// checked; 2: only with withBlock; 0: not called), search (1), strict_leaf / strict_view (0: the two known Search findings of
-// C11_canon_search are relaxed to the implementation's behaviour; 1: contract), strict_gap_anchor (1: contract above
+// checked; 2: only with withBlock; 0: not called), search (1), root_bytes (1; 2: roots symbolic in two bytes),
+// strict_leaf / strict_view (0: the two known Search findings of C11_canon_search are relaxed to the implementation's
+// behaviour; 1: contract, with the labels of those findings), strict_gap_anchor (1: contract above
 // for withBlock at an empty-slot anchor node; 0: the anchor node itself), strict_same_slot (1: InSubtree(A, B) holds
 // for the block B built at the slot of A's first retained empty-slot node; 0: the implementation's "false").
 func VerifHarness_C11_after_prune() {
 	fin := zzverif.Choose(3)
 	e4 := zzverif.Choose(2)
 	vote0 := zzverif.Choose(4)
-	part := 2 // 0: every query but Search; 1: Search; 2: both on the same path
+	part := 3 // 0: every query but Search; 1 / 2: Search from the even / odd anchors; 3: everything on the same path
 	if zzverif.Param("split", 1) == 1 {
-		part = zzverif.Choose(2)
+		part = zzverif.Choose(3)
 	}
 	jsel := zzverif.Choose(1 + zzverif.Param("j_child", 0))
 	vote1 := zzverif.Choose(zzverif.Param("votes1", 1))
@@ -418,10 +426,13 @@ func VerifHarness_C11_after_prune() {
 				ancs = append(ancs, anc{s.vFcRef(n), n})
 			}
 		}
-		ancs = append(ancs, anc{s.vFcRef(0), -1})      // pruned node
+		ancs = append(ancs, anc{s.vFcRef(0), -1})        // pruned node
 		ancs = append(ancs, anc{s.vFcRef(keep - 1), -1}) // the last pruned node
 		ancs = append(ancs, anc{NodeRef{Root: spare, Slot: 0}, -1})
-		for _, an := range ancs {
+		for ai, an := range ancs {
+			if (part == 1 || part == 2) && ai%2 != part-1 {
+				continue
+			}
 			head, viable := -1, false
 			if an.at >= 0 {
 				head, viable = s.headFrom(an.at)
@@ -509,6 +520,8 @@ func VerifHarness_C11_after_prune() {
 						}
 						if onAnchorSlot {
 							zzverif.Assert(in, "Search from an empty-slot anchor lists the block built on that very slot node")
+						} else if p < 0 && q < 0 && strictLeaf == 1 {
+							zzverif.Assert(in, "Search() lists every block without child block as head, in the right class")
 						} else if p < 0 && q < 0 {
 							zzverif.Assert(in, "after pruning, Search() lists every head block in view, in the right class")
 						} else {
@@ -524,7 +537,9 @@ func VerifHarness_C11_after_prune() {
 						}
 						zzverif.Assert(idx >= 0 && s.inT(idx, an.at), "after pruning, Search lists only retained nodes below the anchor (no conflicting or pruned block)")
 					}
-					if p < 0 && q < 0 {
+					if p < 0 && q < 0 && strictLeaf == 1 {
+						zzverif.Assert(len(canon) == nC && len(nonCanon) == nN, "Search() lists nothing but the blocks without child block in view, once each")
+					} else if p < 0 && q < 0 {
 						zzverif.Assert(len(canon) == nC && len(nonCanon) == nN, "after pruning, Search() lists nothing but the head blocks in view, once each")
 					} else {
 						zzverif.Assert(len(canon) == nC && len(nonCanon) == nN, "after pruning, Search lists nothing but the matching blocks in view, once each")
